@@ -17,6 +17,12 @@ ghost('di', 'intmap', 'per stream (local id): number of packets IOManager.read h
 ghost('lost', 'intmap', 'per stream: number of data-bearing (WRTE) packets consumed and discarded by IOManager.read')
 ghost('sgot', 'intmap', 'per stream: number of sync bytes (WRTE payload bytes) received so far')
 ghost('spos', 'intmap', 'per stream: number of sync bytes consumed by the FileSync record reader')
+ghost('sync_out', 'bytesmap', 'per stream: every sync byte ever placed in the send buffer (records built by _filesync_send)')
+ghost('sync_flushed', 'bytesmap', 'per stream: the sync bytes already sent in WRTE payloads')
+ghost('nsync', 'intmap', 'per stream: number of sync records built by _filesync_send')
+ghost('pushed', 'bytesmap', 'per stream: concatenation of the payloads of the DATA records built so far')
+ghost('fin', 'bytes', 'content of the local source stream (push)')
+ghost('fpos', 'int', 'read position in the local source stream')
 ghost('fi', 'intmap', 'per stream: number of FileSync records _filesync_read has returned')
 ghost('fout', 'bytes', 'bytes written to the local destination stream (pull)')
 ghost('cb_bytes', 'int', 'sum of the byte counts reported to the progress callback')
@@ -38,3 +44,5 @@ klass('Transport', {}, real=None, check_init=False,
       bases=['transport.base_transport:BaseTransport', 'transport.base_transport_async:BaseTransportAsync'])
 
 klass('BytesIO', {}, real=None, check_init=False)
+
+klass('StatResult', {'st_size': 'int'}, real=None, check_init=False)
